@@ -44,7 +44,7 @@ def tasks(tier, seed):
     for c in cfgs:
         n = 2 if tier == "quick" else 8
         t += [{"sub": "pairs_cfg", "shard": i, "nshard": n, "cfg": c} for i in range(n)]
-    t += [{"sub": "listing", "shard": 0}]
+    t += [{"sub": "listing", "shard": 0}, {"sub": "listing_xcache", "shard": 0}]
     t += [{"sub": "autoreduce", "shard": i} for i in range(2)]
     t += [{"sub": "generated", "shard": i} for i in range(2)]
     t += [{"sub": "checkdeco", "shard": i} for i in range(2)]
@@ -576,7 +576,7 @@ def _checkdeco_strategy():
                 seen_nonpos = True
             elif seen_nonpos:
                 a["how"] = "kw"
-        return {"params": params, "args": args}
+        return {"params": params, "args": args, "kw_order": list(draw(st.permutations(list(range(n)))))}
 
     return strat()
 
@@ -619,6 +619,9 @@ def case_checkdeco(case, col=None):
         col.case(("cd", str(case)), any(a["how"] != "pos" for a in args) and n > 1, sample=case, cls="should_raise" if bad else "should_pass")
         if any(a["how"] == "omit" for a in args) and any(a["how"] == "kw" for a in args):
             col.count("default_skipped_then_keyword")
+    # keyword arguments are written in the call in any order
+    order = case.get("kw_order") or list(range(n))
+    kw = {names_[i]: kw[names_[i]] for i in order if names_[i] in kw}
     s, r = attempt(f, *pos, **kw)
     if bad:
         if s == "ok":
@@ -677,6 +680,11 @@ def run_generated(task, tier, seed, col):
 
 def run_task(task, tier, seed, col):
     sub = task["sub"]
+    if sub == "listing_xcache":
+        # compatible-unit listings (and conversions) of a registry whose on-disk cache was written by another interpreter run
+        from .c10 import case_xcache
+
+        return col.run_case(lambda c: case_xcache(c, col), {"source": "bundled", "units": ["meter", "second", "joule", "pound", "radian", "bit"], "hashseeds": [2, 4 + seed % 5, 9]})
     if sub == "pairs":
         run_pairs(task, tier, seed, col, "float", NSHARD, stride_full=23 if tier == "quick" else 5)
     elif sub == "pairs_cfg":
@@ -700,6 +708,10 @@ def run_task(task, tier, seed, col):
 
 
 def replay(sub, case):
+    if sub == "listing_xcache":
+        from .c10 import case_xcache
+
+        return case_xcache(case)
     if sub in ("pairs", "pairs_cfg"):
         return case_pair(case)
     if sub == "units":
